@@ -2170,6 +2170,9 @@ def rule_uringmisc(text):
         (r"\bAtomicUsize::new\(", "UsizeCell::new(", "R-atom", "atomic cell constructor"),
         (r"\bSelf" + ws + r"\{" + ws + r"ring", "DiskIO { file_marked: Ghost(false), flushed_ok: Ghost(false), sync_writes: Ghost(Seq::empty()), ring", "R-ghostfield",
          "the handle's ghost fields (no run-time content) get their initial values in the constructor's struct literal"),
+        # ---- DiskIO::shutdown ----
+        (_lit("if let Some(ref mut ring) = self.ring {"), "if let Some(ring) = &mut self.ring {", "R-refpat", "`Some(ref mut x) = place` binds a mutable reference into the place: same as matching `&mut place`"),
+        (_lit("while ring.completion().next().is_some() {"), "while ring.next_cqe().is_some() {", "R-cq", "draining the completion queue entry by entry (A38)"),
         # ---- batch_write_inner ----
         (_lit("for (sector, data) in writes {"),
          "let mut wi_: usize = 0; while wi_ < writes.len() { let (sector, data) = (&writes[wi_].0, &writes[wi_].1); wi_ += 1;", "R-for",
